@@ -11,6 +11,9 @@ CHECKS = {
  "C02": ("fault_enumeration", "exhaustive truncation enumeration over proptest-generated archives (scaled constants: every length x 2 modes; production: windows around every structural boundary + spread sample), repair output judged against the model",
          "Every prefix of generated archives (all layer sets, levels, interleavings) is repaired in both modes and the repaired archive is re-read: no panic, output opens, names are original names, contents are prefixes, files not reported unfinished are complete, end-of-data status implies completeness. Exhaustive in the truncation length on the scaled build, so thin failing sets (15 lengths per chunk) are met by construction.",
          "Archives are a generated sample; the scaled build assumes the layer algorithms depend on the constants only through their order/divisibility; production windows are +-24 bytes.", "DESIGN.md section 4 C02"),
+ "C03": ("fault_enumeration", "fault enumeration on the normal reader: every-byte bit flips incl. header, chunk swap/dup/delete/splice from a twin archive, truncations, header-field edits, over generated encrypted archives, with rotated read orders and buffer sizes; byte-by-byte comparison with the model",
+         "After each alteration the normal reader either fails or returns only original names and original bytes at their positions (position-by-position comparison of every successful read, re-opened files included); the unaltered archive is the control. Exhaustive over byte positions on the scaled build.",
+         "Forgery of a chunk that verifies has negligible probability; whole-archive substitution by an unencrypted archive is outside the quantifier (checked at CLI level in C17). Panics are counted, not judged (C08).", "DESIGN.md section 4 C03"),
  "C04": ("fault_enumeration", "fault enumeration (every byte of every chunk on scaled constants; chunk swap/dup/delete; truncation inside chunks) over generated encrypted archives incl. adversarial record/chunk alignments, judged by a metamorphic relation between authenticated repair, unauthenticated repair and repair of the intact prefix",
          "For every fault with first damaged chunk j, authenticated repair A of the damaged archive must output only prefixes of original files, nothing that the intact archive cut after j chunks does not already yield (so nothing decoded at or after the failed chunk is used), and must be a prefix of the unauthenticated repair U of the same damaged archive. Layouts where a content record of an open file ends exactly on a chunk edge and a complete file follows are generated on purpose (the shape that hides a swallowed authentication failure).",
          "Faults whose first damaged chunk is chunk 0 are excluded by construction and reported as the open finding chunk0-loaded-unauthenticated; T_j relies on unauthenticated repair being complete (C05).", "DESIGN.md section 4 C04"),
